@@ -23,9 +23,30 @@ Definition rt_cls (alts : list (Z * Z)) (c : Z) : Z :=
 Definition alts_ok (alts : list (Z * Z)) (l : lheap) : bool :=
   forallb (fun p : addr * obj => Z.eqb (rt_cls alts (ocls (snd p))) (ocls (snd p))) l.
 
-(* the fragment: coherent class model, and no memo hit on a mapping object in progress ([bad], decided by running the model) *)
+Fixpoint zl_eqb (a b : list Z) : bool :=
+  match a, b with
+  | [], [] => true
+  | x :: a', y :: b' => Z.eqb x y && zl_eqb a' b'
+  | _, _ => false
+  end.
+Lemma zl_eqb_eq a : forall b, zl_eqb a b = true -> a = b.
+Proof.
+  induction a as [|x a IH]; intros [|y b]; simpl; intros H; try discriminate; auto.
+  apply andb_true_iff in H. destruct H as [H1 H2]. apply Z.eqb_eq in H1. subst. f_equal. auto.
+Qed.
+
+(* what happens to the column values on the way there and back ([enc]: create_instance resp. the copying of parent columns;
+   [dec]: create_from_dao resp. from_dao's collection of constructor arguments) is the identity on the objects of the heap:
+   the round-trip condition the property text puts on user code -- and also where krrood's own handling of the columns of a
+   class two levels below an alternatively mapped class fails (finding C04-d) *)
+Definition codec_ok (enc dec : Z -> list Z -> list Z) (l : lheap) : bool :=
+  forallb (fun p : addr * obj => zl_eqb (dec (ocls (snd p)) (enc (ocls (snd p)) (oscal (snd p)))) (oscal (snd p))) l.
+
+(* the fragment: coherent class model, columns round-trip, and no memo hit on a mapping object in progress ([bad], decided by
+   running the model) *)
 Definition F04w (enc dec : Z -> list Z -> list Z) (alts : list (Z * Z)) (ab : list Z) (l : lheap) (r : addr) : bool :=
-  alts_ok alts l && match round_trip enc dec alts ab l r with Some (_, s2) => negb (bad s2) | None => false end.
+  alts_ok alts l && codec_ok enc dec l &&
+  match round_trip enc dec alts ab l r with Some (_, s2) => negb (bad s2) | None => false end.
 
 (* the strict fragment of the first version: no object of an alternatively mapped class or of a mapping class at all *)
 Definition plain_cls (alts : list (Z * Z)) (c : Z) : bool :=
@@ -51,7 +72,6 @@ Qed.
 
 Section Codec.
   Variables enc dec : Z -> list Z -> list Z.
-  Hypothesis Hcodec : forall c s, dec c (enc c s) = s.
 
   Lemma todao_plain alts h Q : plain (P_todao enc alts) h Q.
   Proof. split; intros x o _ _; reflexivity. Qed.
@@ -76,26 +96,28 @@ Section Codec.
     exists d, s1. unfold to_dao. repeat (split; auto).
   Qed.
 
-  Lemma rt_obj alts l a o : alts_ok alts l = true -> heap_of l a = Some o ->
+  Lemma rt_obj alts l a o : alts_ok alts l = true -> codec_ok enc dec l = true -> heap_of l a = Some o ->
     fobj (P_fromdao dec alts []) (fst (fobj (P_todao enc alts) (ocls o) (oscal o))) (snd (fobj (P_todao enc alts) (ocls o) (oscal o)))
     = (ocls o, oscal o).
   Proof.
-    intros Hok Ho. unfold alts_ok in Hok. rewrite forallb_forall in Hok.
+    intros Hok Hco Ho. unfold alts_ok in Hok. rewrite forallb_forall in Hok.
     specialize (Hok _ (assoc_Some_In _ _ _ Ho)). simpl in Hok. apply Z.eqb_eq in Hok.
+    unfold codec_ok in Hco. rewrite forallb_forall in Hco. specialize (Hco _ (assoc_Some_In _ _ _ Ho)). simpl in Hco.
+    apply zl_eqb_eq in Hco.
     unfold fobj. simpl. unfold rt_cls in Hok.
-    destruct (zassoc_inv (cm alts (ocls o)) alts) as [c'|] eqn:E; simpl; rewrite Hok, Hcodec; reflexivity.
+    destruct (zassoc_inv (cm alts (ocls o)) alts) as [c'|] eqn:E; simpl; rewrite Hok, Hco; reflexivity.
   Qed.
 
   (* the second direction, run on any heap [L] that agrees with the DAO graph of to_dao on its addresses (the DAO graph
      itself for C04; the rows read back in a fresh session for C05) *)
   Lemma second_stage alts ab l r d s1 (L : heap) :
-    wf_heap l r = true -> alts_ok alts l = true -> to_dao enc alts l r = Some (d, s1) ->
+    wf_heap l r = true -> alts_ok alts l = true -> codec_ok enc dec l = true -> to_dao enc alts l r = Some (d, s1) ->
     (forall a, a < nxt s1 -> L a = dst s1 a) ->
     exists r' s2, from_dao dec alts ab L (nxt s1) d st0 = Some (r', s2) /\
       (bad s2 = false -> iso (dst s2) r' (heap_of l) r) /\
       ((forall y o, y < nxt s1 -> L y = Some o -> zassoc_inv (ocls o) alts = None) -> bad s2 = false).
   Proof.
-    intros Hwf Hok Hto HL.
+    intros Hwf Hok Hco Hto HL.
     destruct (todao_facts alts l r Hwf) as [d' [s1' [E1 [I1 [M1 [_ [D1 [B1 [F1 J1]]]]]]]]].
     rewrite Hto in E1. inversion E1; subst d' s1'. clear E1.
     pose proof (result_closed _ _ _ s1 (todao_plain alts _ _) I1 D1) as Hcl.
@@ -126,20 +148,21 @@ Section Codec.
   Theorem round_trip_iso_w alts ab l r : wf_heap l r = true -> F04w enc dec alts ab l r = true ->
     exists r' s2, round_trip enc dec alts ab l r = Some (r', s2) /\ bad s2 = false /\ iso (dst s2) r' (heap_of l) r.
   Proof.
-    intros Hwf HF. unfold F04w in HF. apply andb_true_iff in HF. destruct HF as [Hok Hb].
+    intros Hwf HF. unfold F04w in HF. apply andb_true_iff in HF. destruct HF as [HF Hb].
+    apply andb_true_iff in HF. destruct HF as [Hok Hco].
     destruct (todao_facts alts l r Hwf) as [d [s1 [E1 _]]].
-    destruct (second_stage alts ab l r d s1 (dst s1) Hwf Hok E1 (fun _ _ => eq_refl)) as [r' [s2 [E2 [Hiso _]]]].
+    destruct (second_stage alts ab l r d s1 (dst s1) Hwf Hok Hco E1 (fun _ _ => eq_refl)) as [r' [s2 [E2 [Hiso _]]]].
     unfold round_trip in *. rewrite E1 in *. rewrite E2 in Hb. apply negb_true_iff in Hb.
     exists r', s2. auto.
   Qed.
 
   (* the strict fragment (no alternatively mapped object at all) lies inside the widened one *)
-  Theorem round_trip_iso alts ab l r : wf_heap l r = true -> F04 alts l = true ->
+  Theorem round_trip_iso alts ab l r : wf_heap l r = true -> F04 alts l = true -> codec_ok enc dec l = true ->
     exists r' s2, round_trip enc dec alts ab l r = Some (r', s2) /\ bad s2 = false /\ iso (dst s2) r' (heap_of l) r.
   Proof.
-    intros Hwf HF. pose proof (F04_alts_ok alts l HF) as Hok.
+    intros Hwf HF Hco. pose proof (F04_alts_ok alts l HF) as Hok.
     destruct (todao_facts alts l r Hwf) as [d [s1 [E1 [I1 [M1 [_ [D1 _]]]]]]].
-    destruct (second_stage alts ab l r d s1 (dst s1) Hwf Hok E1 (fun _ _ => eq_refl)) as [r' [s2 [E2 [Hiso Hnb]]]].
+    destruct (second_stage alts ab l r d s1 (dst s1) Hwf Hok Hco E1 (fun _ _ => eq_refl)) as [r' [s2 [E2 [Hiso Hnb]]]].
     assert (Hb : bad s2 = false).
     { apply Hnb. intros y ob Hy Hyo. destruct I1 as [_ [_ [K3 _]]].
       destruct (K3 (todao_plain alts _ _) y Hy) as [x Hx]. destruct (D1 _ _ Hx) as [o [fl' [Ho [Hd _]]]].
@@ -176,28 +199,48 @@ Section Codec.
   Qed.
 End Codec.
 
-(* ---------------------------------------------------------------- what the correspondence evaluates (identity codecs: the
-   harness interns column values so that create_instance / create_from_dao of the dataset are the identity on them) *)
-Definition model_canon (alts : list (Z * Z)) (ab : list Z) (l : lheap) (r : addr) : sx :=
-  match round_trip idc idc alts ab l r with
+Lemma codec_ok_id l : codec_ok idc idc l = true.
+Proof.
+  unfold codec_ok, idc. apply forallb_forall. intros [a o] _. simpl.
+  induction (oscal o) as [|x t IH]; simpl; auto. now rewrite Z.eqb_refl.
+Qed.
+
+(* ---------------------------------------------------------------- what the correspondence evaluates.  The harness interns column
+   values so that create_instance / create_from_dao of the mappings are the identity on them ([idc]); the columns krrood itself
+   loses are given by [gc]: for a class TWO OR MORE levels below an alternatively mapped class from_dao asks only the
+   immediate base DAO (self.__class__.__bases__[0]) for an alternative parent, so constructor arguments that only the
+   alternative parent provides (columns the mapping renamed) are not passed and come back as the class's defaults:
+   gc = [(class, [(position, default value)])]  (finding C04-d). *)
+Fixpoint set_nth (n : nat) (v : Z) (l : list Z) : list Z :=
+  match l, n with
+  | [], _ => []
+  | _ :: t, O => v :: t
+  | x :: t, S n' => x :: set_nth n' v t
+  end.
+Definition gcmodel := list (Z * list (nat * Z)).
+Definition decg (gc : gcmodel) : Z -> list Z -> list Z :=
+  fun c s => match zlookg c gc with Some ov => fold_left (fun acc pv => set_nth (fst pv) (snd pv) acc) ov s | None => s end.
+
+Definition model_canon (alts : list (Z * Z)) (ab : list Z) (gc : gcmodel) (l : lheap) (r : addr) : sx :=
+  match round_trip idc (decg gc) alts ab l r with
   | None => SL [SZ (-2)%Z]
   | Some (r', s2) => sx_canon (canon (dst s2) (nxt s2) r')
   end.
 (* second component: 1 = inside the fragment F04w (the theorem applies), third: both heaps closed *)
-Definition case_code (alts : list (Z * Z)) (ab : list Z) (l : lheap) (r : addr) (l' : lheap) (r' : addr) : sx :=
-  SL [SZ (classify (spec_canon l' r') (model_canon alts ab l r) (spec_canon l r));
-      SZ (if F04w idc idc alts ab l r then 1 else 0); SZ (if wf_heap l r && wf_heap l' r' then 1 else 0)].
+Definition case_code (alts : list (Z * Z)) (ab : list Z) (gc : gcmodel) (l : lheap) (r : addr) (l' : lheap) (r' : addr) : sx :=
+  SL [SZ (classify (spec_canon l' r') (model_canon alts ab gc l r) (spec_canon l r));
+      SZ (if F04w idc (decg gc) alts ab l r then 1 else 0); SZ (if wf_heap l r && wf_heap l' r' then 1 else 0)].
 
 (* several top-level conversions sharing ONE ToDAOState and ONE FromDAOState (a graph with several roots converted root by
    root): the roots are the elements of the single collection field of a harness-side holder object at address [h];
    the holder itself is not converted, it only carries the roots (repetitions allowed: the same DAO converted twice).
    Correctness of the shared FromDAOState for two roots is C04_state_reuse_safe; the general list is compared. *)
-Definition round_trip_multi (alts : list (Z * Z)) (ab : list Z) (l : lheap) (h : addr) : option (heap * addr * nat * bool) :=
+Definition round_trip_multi (alts : list (Z * Z)) (ab : list Z) (gc : gcmodel) (l : lheap) (h : addr) : option (heap * addr * nat * bool) :=
   match heap_of l h with
   | Some (mkObj c sc [(t, rs)]) =>
       match walk_list (walk (P_todao idc alts) (heap_of l) (S (length l))) rs st0 with
       | Some (ds, s1) =>
-          match walk_list (walk (P_fromdao idc alts ab) (dst s1) (S (nxt s1))) ds st0 with
+          match walk_list (walk (P_fromdao (decg gc) alts ab) (dst s1) (S (nxt s1))) ds st0 with
           | Some (bs, s2) => Some (upd (dst s2) (nxt s2) (mkObj c sc [(t, bs)]), nxt s2, S (nxt s2), bad s2)
           | None => None
           end
@@ -205,20 +248,20 @@ Definition round_trip_multi (alts : list (Z * Z)) (ab : list Z) (l : lheap) (h :
       end
   | _ => None
   end.
-Definition model_canon_multi (alts : list (Z * Z)) (ab : list Z) (l : lheap) (h : addr) : sx :=
-  match round_trip_multi alts ab l h with
+Definition model_canon_multi (alts : list (Z * Z)) (ab : list Z) (gc : gcmodel) (l : lheap) (h : addr) : sx :=
+  match round_trip_multi alts ab gc l h with
   | None => SL [SZ (-2)%Z]
   | Some (hp, r, n, _) => sx_canon (canon hp n r)
   end.
-Definition case_code_multi (alts : list (Z * Z)) (ab : list Z) (l : lheap) (h : addr) (l' : lheap) (h' : addr) : sx :=
-  SL [SZ (classify (spec_canon l' h') (model_canon_multi alts ab l h) (spec_canon l h));
-      SZ (if alts_ok alts l && match round_trip_multi alts ab l h with Some (_, _, _, b) => negb b | None => false end then 1 else 0);
+Definition case_code_multi (alts : list (Z * Z)) (ab : list Z) (gc : gcmodel) (l : lheap) (h : addr) (l' : lheap) (h' : addr) : sx :=
+  SL [SZ (classify (spec_canon l' h') (model_canon_multi alts ab gc l h) (spec_canon l h));
+      SZ (if alts_ok alts l && codec_ok idc (decg gc) l && match round_trip_multi alts ab gc l h with Some (_, _, _, b) => negb b | None => false end then 1 else 0);
       SZ (if wf_heap l h && wf_heap l' h' then 1 else 0)].
 
 Example multi_root_example :
   let l := [(0, mkObj 1 [7%Z] [(1%Z, [1])]); (1, mkObj 2 [] [(3%Z, [1])]); (2, mkObj 1 [8%Z] [(1%Z, [1])]);
             (3, mkObj 99 [] [(0%Z, [0; 2; 0])])] in
-  model_canon_multi [] [] l 3 = spec_canon l 3.
+  model_canon_multi [] [] [] l 3 = spec_canon l 3.
 Proof. vm_compute. reflexivity. Qed.
 
 (* ---------------------------------------------------------------- refutation witnesses *)
@@ -243,8 +286,25 @@ Qed.
 (* the same graph entered at the Reference lies inside the fragment and converts correctly: the defect depends on the entry point *)
 Example altcycle_other_root_ok :
   F04w idc idc altcycle_alts [] altcycle_heap 1 = true /\
-  model_canon altcycle_alts [] altcycle_heap 1 = spec_canon altcycle_heap 1.
+  model_canon altcycle_alts [] [] altcycle_heap 1 = spec_canon altcycle_heap 1.
 Proof. split; vm_compute; reflexivity. Qed.
+
+(* C04-d: class 13 derives from 12, which derives from the alternatively mapped class 10; the mapping renames column 0.
+   from_dao of a 13-object asks only its immediate base DAO (12, not alternatively mapped) for an alternative parent: the
+   constructor argument behind column 0 is not passed and comes back as the default (0). *)
+Definition altgc_heap : lheap := [(0, mkObj 13 [7; 3]%Z [])].
+Definition altgc_gc : gcmodel := [(13%Z, [(0, 0%Z)])].
+
+Theorem refuted_altgrandchild :
+  wf_heap altgc_heap 0 = true /\ alts_ok altcycle_alts altgc_heap = true /\ codec_ok idc (decg altgc_gc) altgc_heap = false /\
+  exists r' s2, round_trip idc (decg altgc_gc) altcycle_alts [12; 13]%Z altgc_heap 0 = Some (r', s2) /\ bad s2 = false /\
+    ~ iso (dst s2) r' (heap_of altgc_heap) 0.
+Proof.
+  split; [reflexivity|]. split; [reflexivity|]. split; [reflexivity|].
+  destruct (round_trip idc (decg altgc_gc) altcycle_alts [12; 13]%Z altgc_heap 0) as [[r' s2]|] eqn:E; [|vm_compute in E; discriminate].
+  exists r', s2. split; auto. vm_compute in E. inversion E; subst. split; [reflexivity|]. intros Hiso.
+  pose proof (iso_path_obs _ _ _ _ Hiso []) as H. vm_compute in H. discriminate.
+Qed.
 
 (* C04-b (FIXED by repo commit 32013a0): one FromDAOState used for two loads.
    OLD code ([from_dao_old], no keep_alive): the DAO of the first load has been released and the DAO of the second load
@@ -292,5 +352,5 @@ Proof. eexists. eexists. split; vm_compute; reflexivity. Qed.
 Example widened_fragment_example :
   let l := [(0, mkObj 20 [5%Z] [(2%Z, [1]); (3%Z, [1])]); (1, mkObj 10 [1%Z] [(1%Z, [0]); (4%Z, [2])]); (2, mkObj 12 [3%Z; 4%Z] [])] in
   wf_heap l 0 = true /\ F04 altcycle_alts l = false /\ F04w idc idc altcycle_alts [12%Z] l 0 = true /\
-  model_canon altcycle_alts [12%Z] l 0 = spec_canon l 0.
+  model_canon altcycle_alts [12%Z] [] l 0 = spec_canon l 0.
 Proof. repeat split; vm_compute; reflexivity. Qed.
